@@ -132,6 +132,7 @@ class TreeScanningGateRemovalPass(ScanningGateRemovalPass):
         orig_num_cycles: int,
         circuit_copy: Circuit,
         cycle_and_ops: list[tuple[int, Operation]],
+        from_left: bool = True,
     ) -> list[Circuit]:
         """
         Generate all circuits to be instantiated in the tree scan.
@@ -146,6 +147,10 @@ class TreeScanningGateRemovalPass(ScanningGateRemovalPass):
             cycle_and_ops: list[(int, Operation)]: The next chunk
             of operations to be considered for deletion.
 
+            from_left (bool): Whether the scan moves from the left. When
+            scanning from the right, cycles removed by previous deletions
+            lie behind the remaining operations and shift nothing.
+
         Returns:
             list[Circuit]: A list of 2^(`tree_depth`) - 1 circuits
             that remove up to `tree_depth` operations. The circuits
@@ -156,7 +161,7 @@ class TreeScanningGateRemovalPass(ScanningGateRemovalPass):
             new_circs = []
             for circ in all_circs:
                 idx_shift = orig_num_cycles - circ.num_cycles
-                new_cycle = cycle - idx_shift
+                new_cycle = cycle - idx_shift if from_left else cycle
                 work_copy = circ.copy()
                 work_copy.pop((new_cycle, op.location[0]))
                 new_circs.append(work_copy)
@@ -194,6 +199,7 @@ class TreeScanningGateRemovalPass(ScanningGateRemovalPass):
 
             all_circs = TreeScanningGateRemovalPass.get_tree_circs(
                 circuit.num_cycles, circuit_copy, chunk,
+                self.start_from_left,
             )
 
             _logger.debug(
